@@ -31,7 +31,7 @@ CLAUSES = ("model.", "assess.", "imp.")
 
 def run(ctx):
     nk = ctx.pick(48, 400)
-    budget = ctx.pick(75, 900)
+    budget = ctx.pick(75, 420)
     for ci in ctx.my_share(nk):
         if ctx.elapsed() > budget:
             ctx.note(f"time budget reached at kernel {ci}")
